@@ -179,6 +179,9 @@ func (r *Row) verifyInclusion(roots *share.AxisRoots, idx int) error {
 
 // MarshalJSON encodes row to the json encoded bytes.
 func (r Row) MarshalJSON() ([]byte, error) {
+	if r.side != Left && r.side != Right && r.side != Both {
+		return nil, fmt.Errorf("invalid RowSide: %d", r.side)
+	}
 	jsonRow := struct {
 		Shares []libshare.Share `json:"shares"`
 		Side   string           `json:"side"`
@@ -199,8 +202,12 @@ func (r *Row) UnmarshalJSON(data []byte) error {
 	if err != nil {
 		return err
 	}
+	side, err := toRowSide(jsonRow.Side)
+	if err != nil {
+		return err
+	}
 	r.shares = jsonRow.Shares
-	r.side = toRowSide(jsonRow.Side)
+	r.side = side
 	return nil
 }
 
@@ -233,16 +240,16 @@ func (s RowSide) String() string {
 	}
 }
 
-func toRowSide(s string) RowSide {
+func toRowSide(s string) (RowSide, error) {
 	switch s {
 	case "LEFT":
-		return Left
+		return Left, nil
 	case "RIGHT":
-		return Right
+		return Right, nil
 	case "BOTH":
-		return Both
+		return Both, nil
 	default:
-		panic("invalid row side")
+		return 0, fmt.Errorf("invalid row side: %q", s)
 	}
 }
 
